@@ -4,7 +4,7 @@
   Two mechanisms, two models:
   * in-place writes: Model/Heap.lean (buffer-event IR + ownership, incl. the interprocedural edge
     `call`), the GENERATED table Gen/InplaceSites.lean with the reasons the scanner established by
-    analysis, the acceptance rule Lemmas/PersistSites.lean (no prose allow-list; one named clause);
+    analysis, the acceptance rule Lemmas/PersistSites.lean (no prose allow-list, no named clause left);
   * the class-level attribute registry behind flatten/unflatten: Model/Registry.lean.
   The correspondence (harness/props/c18.py) compares bytes of every caller-owned array and operator
   after every operation of exhaustive short histories, and runs flatten/unflatten in fresh
@@ -45,8 +45,8 @@ theorem C18_safe_discipline_needed :
     the discipline, or carries a reason ESTABLISHED BY THE SCANNER whose data are checked here
     (`Reason.holds`, `Reason.wellFormed`: caller-side slices of every call site ending in `call`, defining
     slices of every store to an owned field, zero reads of a write-only attribute, class-level target),
-    or is the one row of the named clause `identity-to-mutates-receiver` (`allowList`, see
-    `C18_clause_rows`).  Round 1 accepted 14 rows by a prose allow-list. -/
+    — the named-clause list (`allowList`) is empty, see `C18_clause_rows` / `C18_sites_no_exemption`.
+    Round 1 accepted 14 rows by a prose allow-list. -/
 theorem C18_sites : ∀ s ∈ Gen.InplaceSites.sites, s.inScope = true → s.ok = true := by
   have h : Gen.InplaceSites.sites.all (fun s => !s.inScope || s.ok) = true := by decide +kernel
   intro s hs hsc
@@ -104,12 +104,24 @@ theorem C18_sites_mechanical : ∀ s ∈ Gen.InplaceSites.sites, s.inScope = tru
   · exact Or.inr (Or.inl h)
   · exact Or.inl h
 
-/-- the rows that rest on the named clause: exactly one (`Identity.to`), and no reason the scanner could
-    establish holds for it (its `device` attribute is read by the library) -/
+/-- NO library row rests on a named clause any more (the one that did, `Identity.to`, was repaired in /repo
+    aef9931 and its store now obeys the discipline): together with `C18_sites_mechanical`, every in-place
+    site of the library is accepted by the discipline or by a reason whose data are checked. -/
 theorem C18_clause_rows :
-    (Gen.InplaceSites.sites.filter (fun s => s.inScope && s.byClause)).map (fun s => (s.func, s.target, s.reason.holds))
-      = [("Identity.to", "self.device", false)] := by
+    Gen.InplaceSites.sites.filter (fun s => s.inScope && s.byClause) = [] := by
   decide +kernel
+
+/-- … spelled out: discipline or checked reason, nothing else -/
+theorem C18_sites_no_exemption : ∀ s ∈ Gen.InplaceSites.sites, s.inScope = true →
+    writesOnlyFresh s.prog = true ∨ (s.reason.holds = true ∧ s.reason.wellFormed = true) := by
+  intro s hs hsc
+  rcases C18_sites_mechanical s hs hsc with h | h | h
+  · exact Or.inl h
+  · exact Or.inr h
+  · have hm : s ∈ Gen.InplaceSites.sites.filter (fun s => s.inScope && s.byClause) :=
+      List.mem_filter.mpr ⟨hs, by simp [hsc, h]⟩
+    rw [C18_clause_rows] at hm
+    cases hm
 
 /-- the interprocedural constructor of the IR is exercised by the generated table: some library row is
     accepted through caller-side slices ending in `call` -/
@@ -341,6 +353,7 @@ end C18
 #print axioms C18.C18_reasons_safe
 #print axioms C18.C18_sites_mechanical
 #print axioms C18.C18_clause_rows
+#print axioms C18.C18_sites_no_exemption
 #print axioms C18.C18_call_edges_present
 #print axioms C18.C18_call_discipline_needed
 #print axioms C18.C18_roundtrip
